@@ -89,18 +89,18 @@ PROPS = {
                      "several RI ids on one image: every id is released before GRend (GRend with ids outstanding is not exercised); GRsetcompress/GRsetchunk only before the first data"],
     ),
     "C07": dict(
-        lean_props=["H4.Props.C07"],
+        lean_props=["H4.Props.C07", "H4.Props.C07Fn"],
         engines=[
             E("vs", "e_vs.c", model="vs", quick=dict(cases=400, chunk=25), thorough=dict(cases=4000, seeds=4, chunk=50, timeout=1800)),
         ],
         trusted_base=["DFKconvert kernels modelled as per-element copy / byte reversal (DFKnb*b, DFKsb*b); number conversion proper is outside C07",
                       "data element (DFTAG_VS, possibly linked-block) modelled as a growable byte array with a position: C01's business",
-                      "VH packing/unpacking of the write list across Hclose/Hopen is exercised by the engine, not modelled"],
+                      "VH unpacking (vunpackvs) of the write list after Hclose/Hopen is exercised by the engine, not modelled here (the record codec is C02's); the packing side vpackvs is proved at function level (H4.Props.C07Fn) against H4.Format.vpackvs"],
         assumptions=["little-endian host; DFKNTsize(t) = DFKNTsize(t|DFNT_NATIVE) for all number types (generated tables NT_SIZES/NT_NSIZES, checked by lemma nt_tables)",
                      "field names are not the reserved symbols PX..NZ; seeks stay within the records written"],
     ),
     "C08": dict(
-        lean_props=["H4.Props.C08"],
+        lean_props=["H4.Props.C08", "H4.Props.C08Fn"],
         engines=[
             E("vg", "e_vg.c", model="vg", cflags=["-DFIXED3"], quick=dict(cases=300, chunk=25), thorough=dict(cases=4000, seeds=4, chunk=50)),
         ],
